@@ -72,7 +72,7 @@ def iterated(base, kind, k):
         return " U ".join(hints[: k // 2]) + f" U ({base}) U " + " U ".join(hints[k // 2:])
     if kind == "fcs":
         e = f"({base})"
-        for i in range(k):
+        for i in range(min(k, 98)):  # format constraint keys end at 999
             e = f"({e}[{902 + i}])"
         return e
     if kind == "brackets":
